@@ -78,6 +78,8 @@ def lookup_rule(repo, res, rule="LOOKUP"):
             first_if = n
             break
     if first_if is None:
+        if _lookup_via_helper(repo, res, rule, fq, fn, envs, arm, roles, caller, cenvs, calls):
+            return
         res.undecided(rule, f"{rule}:{fq}:chain", "no if-let lookup chain in the NontermRef arm", f"{fn.file}:{arm['l']}")
         return
     cur = first_if
@@ -123,6 +125,58 @@ def lookup_rule(repo, res, rule="LOOKUP"):
         rets = [n for n in A.walk(final_else) if n["k"] == "Return"]
         ok = len(rets) == 1 and rets[0]["expr"] is not None and A.resolve(rets[0]["expr"], envs.get(id(rets[0])))[0] == "param"
     res.check(ok, rule, f"{rule}:{fq}:unknown-left-unchanged", "a reference found in no map is returned unchanged", loc)
+
+
+def _lookup_via_helper(repo, res, rule, fq, fn, envs, arm, roles, caller, cenvs, calls):
+    """The lookup chain extracted into a helper of the module (`lookup_specialization(nonterm, user, builtin, fallback) -> Option<..>`):
+    the maps are consulted in the source order of the `.get / .get_mut / .contains_key(&<the reference's name>)` calls on the helper's
+    parameters, each parameter standing for the argument the arm passes (hence for a role)."""
+    for c in P.find_calls(arm["body"]):
+        if c["k"] != "Call" or c["func"]["k"] != "Path":
+            continue
+        h = repo.fn(f"{fn.module}::{c['func']['path'].split('::')[-1]}")
+        if h is None or h is fn:
+            continue
+        # helper parameter -> role / "key"
+        prole = {}
+        for j, a in enumerate(c["args"]):
+            p = A.resolve(a, envs.get(id(c)))
+            while p[0] in ("ref", "deref"):
+                p = p[1]
+            if p[0] == "param" and p[1] in roles:
+                prole[j] = roles[p[1]]
+            elif p[0] == "param":
+                prole[j] = f"param:{p[2]}"
+            elif p[0] == "bind" and P.last(p[1]) == "NontermRef" and p[2] == "nonterm":
+                prole[j] = "key"
+        if "key" not in prole.values() or "user" not in prole.values():
+            continue
+        henvs = A.collect_envs(h)
+        looks = []
+        for m in A.walk(h.body):
+            if m["k"] == "MethodCall" and m["method"] in ("get", "get_mut", "contains_key") and m["args"]:
+                r = A.resolve(m["recv"], henvs.get(id(m)))
+                k = A.resolve(m["args"][0], henvs.get(id(m)))
+                while k[0] in ("ref", "deref"):
+                    k = k[1]
+                if r[0] == "param" and k[0] == "param" and prole.get(k[1]) == "key":
+                    looks.append((m["l"], m["c"], prole.get(r[1], f"param:{r[2]}")))
+        order = [r for _, _, r in sorted(looks)]
+        if not order:
+            continue
+        loc = f"{h.file}:{h.node['l']}"
+        res.check(order[:1] == ["user"], rule, f"{rule}:{fq}:first-is-target-shell-spec", f"lookup order {order} (in helper {h.qname})", loc)
+        if "builtin" in order:
+            bi = order.index("builtin")
+            filtered = builtin_filtered_by_plain_defs(repo, caller, cenvs, calls)
+            ok = any(r == "plain" for r in order[:bi]) or filtered
+            res.check(ok, rule, f"{rule}:{fq}:plain-definition-overrides-builtin", "builtin map is filtered by the plain definitions before use" if filtered else f"lookup order {order}", loc)
+        else:
+            res.bad(rule, f"{rule}:{fq}:builtin", f"no builtin lookup found in {order}", loc)
+        rets = [n for n in A.walk(arm["body"]) if n["k"] == "Return" and n.get("expr") is not None and A.resolve(n["expr"], envs.get(id(n)) or envs.get(id(n["expr"])))[0] == "param"]
+        res.check(bool(rets), rule, f"{rule}:{fq}:unknown-left-unchanged", "a reference found in no map is returned unchanged", f"{fn.file}:{arm['l']}")
+        return True
+    return False
 
 
 def builtin_filtered_by_plain_defs(repo, caller, envs, calls):
